@@ -22,15 +22,27 @@ type TV struct {
 // the initial constant of that heap.
 type State struct {
 	m   map[string]string
+	b   map[string]string // heap name -> allocation counter at the time of its last write
 	enc *Enc
 }
 
 func (st *State) clone() *State {
-	n := &State{m: make(map[string]string, len(st.m)), enc: st.enc}
+	n := &State{m: make(map[string]string, len(st.m)), b: make(map[string]string, len(st.b)), enc: st.enc}
 	for k, v := range st.m {
 		n.m[k] = v
 	}
+	for k, v := range st.b {
+		n.b[k] = v
+	}
 	return n
+}
+
+// boundOf: every reference stored in heap h is at most this value.
+func (st *State) boundOf(h Heap) string {
+	if v, ok := st.b[h.Name]; ok {
+		return v
+	}
+	return st.enc.initConst(allocHeap)
 }
 
 func (st *State) get(h Heap) string {
@@ -44,6 +56,12 @@ func (st *State) get(h Heap) string {
 func (st *State) set(h Heap, term string) {
 	st.enc.touch(h)
 	st.m[h.Name] = term
+	if h.Kind != HAlloc {
+		if st.b == nil {
+			st.b = map[string]string{}
+		}
+		st.b[h.Name] = st.get(allocHeap)
+	}
 }
 
 // EvalCtx is the environment in which a contract expression is translated.
@@ -124,6 +142,8 @@ func (c *EvalCtx) resolveType(t *TypeExpr) (types.Type, string, *TypeExpr) {
 		return types.NewSlice(et), "Slice", nil
 	case "iface":
 		return types.NewInterfaceType(nil, nil), "Int", nil
+	case "gomap":
+		return types.NewMap(c.goType(t.Key), c.goType(t.Elem)), "Int", nil
 	case "map":
 		// ghost map: a total SMT array (value semantics)
 		_, ks, _ := c.resolveType(t.Key)
@@ -148,7 +168,7 @@ func qs(s string) string {
 // goMapType resolves map[K]V written in a contract as a real Go map type.
 func (c *EvalCtx) goType(t *TypeExpr) types.Type {
 	switch t.Kind {
-	case "map":
+	case "map", "gomap":
 		return types.NewMap(c.goType(t.Key), c.goType(t.Elem))
 	case "slice":
 		return types.NewSlice(c.goType(t.Elem))
@@ -219,6 +239,13 @@ func (c *EvalCtx) eval(e Expr) TV {
 			return TV{Term: "(not " + x.Term + ")", Sort: "Bool", T: x.T}
 		case "-":
 			return TV{Term: "(- " + x.Term + ")", Sort: "Int", T: x.T}
+		case "*":
+			if x.T != nil {
+				if pt, ok := x.T.Underlying().(*types.Pointer); ok {
+					return c.loadAt(x.Term, pt.Elem())
+				}
+			}
+			c.errf("dereference of non-pointer %s", e.X)
 		}
 	case *EBinary:
 		return c.evalBinary(e)
@@ -249,7 +276,7 @@ func (c *EvalCtx) eval(e Expr) TV {
 			switch u := x.T.Underlying().(type) {
 			case *types.Slice:
 				h := s.ElemHeap(u.Elem())
-				return TV{Term: fmt.Sprintf("(select (select %s (s.arr %s)) (+ (s.off %s) %s))", c.st.get(h), x.Term, x.Term, i.Term), Sort: s.SortOf(u.Elem()), T: u.Elem()}
+				return TV{Term: fmt.Sprintf("(select (select %s (s.arr %s)) (at (s.off %s) %s))", c.st.get(h), x.Term, x.Term, i.Term), Sort: s.SortOf(u.Elem()), T: u.Elem()}
 			case *types.Map:
 				_, hv, _ := s.MapHeaps(u)
 				return TV{Term: fmt.Sprintf("(select (select %s %s) %s)", c.st.get(hv), x.Term, i.Term), Sort: s.SortOf(u.Elem()), T: u.Elem()}
@@ -304,7 +331,8 @@ func (c *EvalCtx) eval(e Expr) TV {
 		var guards []string
 		for _, b := range e.Vars {
 			gt, so, g := c.resolveType(b.T)
-			name := "q$" + b.Name
+			c.enc.nquant++
+			name := fmt.Sprintf("q$%s!%d", b.Name, c.enc.nquant)
 			vars[b.Name] = TV{Term: name, Sort: so, T: gt, G: g}
 			decl = append(decl, "("+name+" "+qs(so)+")")
 			_ = guards
@@ -384,6 +412,9 @@ func (c *EvalCtx) evalObject(obj types.Object) TV {
 	case *types.Var:
 		// package-level variable: a cell at a fixed address
 		if o.Parent() == o.Pkg().Scope() {
+			if t, ok := c.enc.constGlobal(o.Pkg().Path()+"."+o.Name(), o.Type()); ok {
+				return TV{Term: t, Sort: s.SortOf(o.Type()), T: o.Type()}
+			}
 			ref := c.enc.ctx.globalRef(o)
 			return c.loadAt(ref, o.Type())
 		}
@@ -606,6 +637,12 @@ func (c *EvalCtx) evalCall(e *ECall) TV {
 		cnd := c.boolTerm(e.Args[0])
 		a := c.eval(e.Args[1])
 		b := c.eval(e.Args[2])
+		if a.Nil && b.Sort == "Slice" {
+			a = TV{Term: "nilslice", Sort: "Slice", T: b.T}
+		}
+		if b.Nil && a.Sort == "Slice" {
+			b = TV{Term: "nilslice", Sort: "Slice", T: a.T}
+		}
 		if a.Sort != b.Sort {
 			c.errf("ite branches differ in sort")
 		}
@@ -635,7 +672,11 @@ func (c *EvalCtx) evalCall(e *ECall) TV {
 	case "typeis":
 		argn(2)
 		x := c.eval(e.Args[0])
-		te, err := ParseType(e.Args[1].String())
+		ts, isStr := e.Args[1].(*EStr)
+		if !isStr {
+			c.errf("typeis needs a type")
+		}
+		te, err := ParseType(ts.Val)
 		if err != nil {
 			c.errf("typeis: %v", err)
 		}
